@@ -13,6 +13,8 @@ Structural induction over the graph; every obligation is about ONE template, ONE
   O4  reference names (Context._register_reference, make_ref): the returned name is registered to that expression
       and was not registered to a different one; every other entry is unchanged (exhaustive small ghost states).
   O5  constants: printed as the declared type applied to the value's text (NumPy), type = type_to_target[get_type].
+  O7  list arguments (PrinterBase.init_arguments): each used item is bound once, before use, from its own index.
+  O8  auto-generated reference names (make_ref / toidentifier) are distinct for different expressions of one graph.
 From O1-O5 by induction the emitted program is in single-assignment form and computes, at every name, the library
 primitive of the node on the operand values in order, i.e. the direct evaluation of the graph.
 """
@@ -640,6 +642,156 @@ def reference_obligations(rep):
     #  obligation is placed on them: a change that repeats an origin does not break the property)
 
 
+
+# --------------------------------------------------------------------------------------------- O7 list arguments
+def list_argument_obligations(rep):
+    """PrinterBase.init_arguments for list-typed arguments: every item the body uses is bound exactly once, before its first
+    use, from `<list>[<its own index>]` (possibly through a cast), for every length <= 3, every non-empty set of used items
+    and both cast settings; the emitted NumPy function is also executed on distinct item values."""
+    import warnings
+
+    import functional_algorithms as fa
+    import functional_algorithms.targets as T
+
+    fnid = ("targets.base.PrinterBase.init_arguments",)
+    for tname in ("numpy",):  # the lax printer shares the code but is outside the statement (and jax is not installed)
+        target = getattr(T, tname, None)
+        if target is None:
+            continue
+        bad, n = [], 0
+        for length in (1, 2, 3):
+            for used in itertools.product((False, True), repeat=length):
+                if not any(used):
+                    continue
+                for fc in (False, True):
+                    n += 1
+                    weights = [3.0, 5.0, 7.0][:length]
+
+                    def f(ctx, x: list):
+                        r = None
+                        for k in range(length):
+                            if used[k]:
+                                term = x[k] * ctx.constant(weights[k], x[k])
+                                r = term if r is None else r + term
+                        return r
+
+                    tag = "len=%d used=%s force_cast_arguments=%s" % (length, "".join("1" if u else "0" for u in used), fc)
+                    try:
+                        with warnings.catch_warnings():
+                            warnings.simplefilter("ignore")
+                            ctx = fa.Context(paths=[fa.algorithms])
+                            g = ctx.trace(f, list[tuple([numpy.float64] * length)] if False else eval("list[%s]" % ", ".join(["numpy.float64"] * length), {"numpy": numpy, "list": list}))
+                            g = g.rewrite(target, fa.rewrite)
+                            src = g.tostring(target, debug=0, force_cast_arguments=fc)
+                    except Exception as e:
+                        bad.append((tag, "printing raised %r" % (e,)))
+                        continue
+                    try:
+                        tree = ast.parse(src)
+                    except SyntaxError as e:
+                        bad.append((tag, "emitted text does not parse: %s" % e))
+                        continue
+                    fdef = next(nd for nd in ast.walk(tree) if isinstance(nd, ast.FunctionDef))
+                    lname = fdef.args.args[0].arg
+                    # statements in order; record for each subscript read `<list>[k]` the name it is bound to
+                    bound = {}
+                    prob = None
+                    stmts = []
+                    for nd in ast.walk(fdef):
+                        if isinstance(nd, (ast.Assign, ast.AnnAssign)):
+                            stmts.append(nd)
+                    stmts.sort(key=lambda nd: (nd.lineno, nd.col_offset))
+                    assigned = set()
+                    for st in stmts:
+                        tgt = st.targets[0] if isinstance(st, ast.Assign) else st.target
+                        val = st.value
+                        if not isinstance(tgt, ast.Name) or val is None:
+                            continue
+                        reads = {nd.id for nd in ast.walk(val) if isinstance(nd, ast.Name)}
+                        for r_ in reads:
+                            if r_ not in assigned and r_ != lname and r_ not in ("numpy", "jnp", "jax", "warnings", "math", "lax"):
+                                prob = prob or "`%s` is read before it is bound (statement `%s`)" % (r_, ast.unparse(st))
+                        for nd in ast.walk(val):
+                            if isinstance(nd, ast.Subscript) and isinstance(nd.value, ast.Name) and nd.value.id == lname and isinstance(nd.slice, ast.Constant):
+                                bound.setdefault(nd.slice.value, tgt.id)
+                        assigned.add(tgt.id)
+                    for k in range(length):
+                        if used[k] and k not in bound:
+                            prob = prob or "item %d is used but `%s[%d]` is never read" % (k, lname, k)
+                    if prob is None and tname == "numpy":
+                        try:
+                            ns = {}
+                            exec(compile(tree, "<emitted>", "exec"), dict(numpy=numpy, warnings=warnings), ns)
+                            fun = next(v for v in ns.values() if callable(v))
+                            items = [numpy.float64(v) for v in (11.0, 13.0, 17.0)[:length]]
+                            got = fun(list(items))
+                            want = sum(float(items[k]) * weights[k] for k in range(length) if used[k])
+                            if float(got) != want:
+                                prob = "emitted function returns %r, the graph evaluates to %r on %s" % (got, want, [float(v) for v in items])
+                        except Exception as e:
+                            prob = "emitted function raised %r" % (e,)
+                    if prob:
+                        bad.append((tag, prob))
+        rep.add(core.decided("C05/O7/list-arguments/%s" % tname, PROP, not bad, functions=fnid, text="%d (length, used items, force_cast_arguments) cases: each used item is bound once, before use, from its own index; the NumPy function evaluates the graph" % n, detail=dict(bad=[str(b) for b in bad[:6]]), meta=dict(target=tname, kind="list-arguments", bad=[str(b) for b in bad[:3]])))
+
+
+# --------------------------------------------------------------------------------------------- O8 auto-generated names
+def auto_reference_obligations(rep):
+    """make_ref / toidentifier: two DIFFERENT expressions of one graph never get the same auto-generated reference name
+    (the printers key need_ref and defined_refs by that name).  Finite universe: a unary/binary node over one symbol and
+    constants that differ in value, sign of zero, Python/NumPy type or reference operand."""
+    import warnings
+
+    import functional_algorithms as fa
+    import functional_algorithms.targets as T
+
+    fnid = ("expr.make_ref", "expr.toidentifier")
+    values = [0.0, -0.0, 1.0, -1.0, 1, -1, 0, 2.0, 0.5, 1.5, -1.5, float("inf"), float("-inf"), 1e-3, 1e300, 3, numpy.float32(0.0), numpy.float32(-0.0), numpy.float32(1.5), numpy.float64(-0.0), numpy.float64(0.1), numpy.float32(0.1), True, False]
+    bad, n = [], 0
+    with warnings.catch_warnings():
+        warnings.simplefilter("ignore")
+        for tname in ("numpy", "python"):
+            target = getattr(T, tname)
+            for kind in ("copysign", "atan2", "maximum"):
+                for i, v1 in enumerate(values):
+                    for v2 in values[i + 1 :]:
+                        if isinstance(v1, bool) or isinstance(v2, bool):
+                            continue
+                        n += 1
+
+                        def f(ctx, x: float):
+                            a = getattr(ctx, kind)(x, ctx.constant(v1, x))
+                            b = getattr(ctx, kind)(x, ctx.constant(v2, x))
+                            return ctx.hypot(a, b) if False else a * ctx.constant(3.0, x) + b
+
+                        try:
+                            ctx = fa.Context(paths=[fa.algorithms])
+                            g = ctx.trace(f, numpy.float64 if tname == "numpy" else float)
+                            body = g.operands[-1]
+                        except Exception as e:
+                            bad.append((tname, kind, repr(v1), repr(v2), "tracing raised %r" % (e,)))
+                            continue
+                        # the two nodes
+                        nodes = []
+
+                        def walk(e, nodes=nodes):
+                            if getattr(e, "kind", None) == kind and not any(e is m for m in nodes):
+                                nodes.append(e)
+                            for o in getattr(e, "operands", ()):
+                                if hasattr(o, "kind"):
+                                    walk(o)
+
+                        walk(body)
+                        if len(nodes) < 2:
+                            continue  # the two constants denote the same expression (same key): nothing to distinguish
+                        # constants of different Python/NumPy type but the same value (0.0 and numpy.float32(0.0)) may share a name:
+                        # the nodes then compute the same thing; a shared name is a violation only when the values differ
+                        same_value = numpy.float64(v1).tobytes() == numpy.float64(v2).tobytes()
+                        if nodes[0].ref == nodes[1].ref and nodes[0].key != nodes[1].key and not same_value:
+                            bad.append((tname, kind, repr(v1), repr(v2), "both nodes are named %s" % nodes[0].ref))
+    rep.add(core.decided("C05/O8/auto-reference-names-distinct", PROP, not bad, functions=fnid, text="%d pairs of nodes that differ only in a constant operand: different expressions get different reference names" % n, detail=dict(bad=[str(b) for b in bad[:8]]), meta=dict(kind="auto-reference-names", bad=[str(b) for b in bad[:4]])))
+
+
 # --------------------------------------------------------------------------------------------- main
 def replay_any(o):
     m = o.meta or {}
@@ -661,7 +813,7 @@ def build(tier):
             template_obligations_py(rep, t)
         except Exception:
             rep.add(core.decided("C05/O1/%s/engine" % t, PROP, core.ERROR, text=traceback.format_exc()[-1500:]))
-    for f in (template_obligations_cpp, composition_obligations, printer_step_obligations, need_ref_obligations, reference_obligations):
+    for f in (template_obligations_cpp, composition_obligations, printer_step_obligations, need_ref_obligations, reference_obligations, list_argument_obligations, auto_reference_obligations):
         try:
             f(rep)
         except Exception:
